@@ -131,7 +131,7 @@ def parseFloatS (s : String) : Option Float :=
 
 /-- esl-mask [-r] [-l | -m c] [-x n] <fasta> <maskfile>; sequential mode -/
 def runMask (argv : List String) (files : String → Option (List Char)) : Option String := do
-  let p ← parseArgs ["-r", "-l"] ["-m", "-x", "--informat"] argv {}
+  let p ← parseArgs ["-r", "-l", "-R"] ["-m", "-x", "--informat"] argv {}
   match p.val? "--informat" with
   | some f => if f != "fasta" then none
   | none => pure ()
@@ -145,9 +145,18 @@ def runMask (argv : List String) (files : String → Option (List Char)) : Optio
   let [fn, mf] := p.pos | none
   let recs := parseFasta (← files fn)
   let mlines := (fileLines (← files mf)).filter (fun l => !(l.all isBlank))
-  if mlines.length > recs.length || mlines.isEmpty then none
+  if mlines.isEmpty then none
   let o : MaskOpts := { rev := p.has "-r", lower := p.has "-l", mchar := mchar, x := x }
-  let outs ← (mlines.zip recs).mapM fun (l, r) => do
+  -- -R: every mask line names its sequence, fetched through the SSI index; otherwise mask lines and sequences run in parallel
+  let pairs ← if p.has "-R" then do
+      let _ ← files (fn ++ ".ssi")
+      if !namesDistinct recs then none
+      mlines.mapM fun l => do
+        let nm ← (((String.ofList l).splitOn " ").filter (· ≠ "")).head?
+        let r ← recs.find? (·.name = nm.toList)
+        some (l, r)
+    else if mlines.length > recs.length then none else some (mlines.zip recs)
+  let outs ← pairs.mapM fun (l, r) => do
     let toks := ((String.ofList l).splitOn " ").filter (· ≠ "")
     let [nm, a, b] := toks | none
     if nm.toList ≠ r.name then none
@@ -158,8 +167,10 @@ def runMask (argv : List String) (files : String → Option (List Char)) : Optio
 
 /-- esl-reformat [-d -l -n -r -u -x --gapsym c --rename s --replace a:b] --informat (fasta|afa) (fasta|afa) <file> -/
 def runReformat (argv : List String) (files : String → Option (List Char)) : Option String := do
-  let p ← parseArgs ["-d", "-l", "-n", "-r", "-u", "-x"] ["--gapsym", "--informat", "--rename", "--replace"] argv {}
+  let p ← parseArgs ["-d", "-l", "-n", "-r", "-u", "-x", "--mingap", "--nogap"] ["--gapsym", "--informat", "--rename", "--replace"] argv {}
   let infmt ← p.val? "--informat"
+  if p.has "--mingap" && p.has "--nogap" then none
+  if (p.has "--mingap" || p.has "--nogap") && (p.val? "--gapsym").isSome then none
   let [outfmt, fn] := p.pos | none
   if (p.has "-d" && p.has "-r") || (p.has "-l" && p.has "-u") || (p.has "-n" && p.has "-x") then none
   let gapsym ← match p.val? "--gapsym" with
@@ -178,14 +189,18 @@ def runReformat (argv : List String) (files : String → Option (List Char)) : O
   if recs.any (fun r => r.seq.isEmpty) then none
   match outfmt, infmt with
   | "fasta", "fasta" =>
+    if p.has "--mingap" || p.has "--nogap" then none
     if gapsym.isSome || recs.any (fun r => r.seq.any fun c => !c.isAlpha && c != '*') then none
     some (reformatText (reformatFasta o false recs))
   | "fasta", "afa" =>
+    if p.has "--mingap" || p.has "--nogap" then none
     if gapsym.isSome || !sameLen recs || recs.any (fun r => r.seq.all isGapC) then none
     some (reformatText (reformatFasta o true recs))
   | "afa", "afa" =>
     if !sameLen recs then none
-    some (reformatText (reformatAfa o recs))
+    let recs' := if p.has "--mingap" then dropGapColumns false recs else if p.has "--nogap" then dropGapColumns true recs else recs
+    if recs'.any (fun r => r.seq.isEmpty) then none
+    some (reformatText (reformatAfa o recs'))
   | _, _ => none
 
 def seedOf (p : Parsed) : Option Nat := do
